@@ -335,7 +335,12 @@ impl CommonArgs {
 
         // The pool might be already initialized, suppress the error intentionally.
         if self.available_threads.get() <= 1 {
-            let _ = ThreadPoolBuilder::new().use_current_thread().build_global();
+            // Note, `use_current_thread` only makes the current thread part of the pool. Without
+            // also setting the number of threads, the pool would still get one thread per CPU.
+            let _ = ThreadPoolBuilder::new()
+                .num_threads(1)
+                .use_current_thread()
+                .build_global();
         } else {
             let _ = ThreadPoolBuilder::new()
                 .num_threads(self.available_threads.get())
